@@ -63,8 +63,22 @@ func goEnv() []string {
 	return append(out, "GOWORK=off", "GOFLAGS=-mod=mod", "GOPROXY=off", "GOSUMDB=off", "GOTOOLCHAIN=local")
 }
 
+// generatedFiles: the protoc outputs of the reference tree. Only these, in x/cctp/types,
+// are exempt from the hand-written-code rules (a file that merely carries the suffix is
+// ordinary module code); generatedObligation checks what they may contain.
+var generatedFiles = map[string]bool{
+	"attester.pb.go": true, "burn_message.pb.go": true, "burning_and_minting_paused.pb.go": true, "events.pb.go": true, "genesis.pb.go": true,
+	"max_message_body_size.pb.go": true, "message.pb.go": true, "nonce.pb.go": true, "per_message_burn_limit.pb.go": true, "query.pb.go": true,
+	"query.pb.gw.go": true, "remote_token_messenger.pb.go": true, "sending_and_receiving_messages_paused.pb.go": true, "signature_threshold.pb.go": true,
+	"token_pair.pb.go": true, "tx.pb.go": true,
+}
+
 func isGeneratedName(name string) bool {
-	return strings.HasSuffix(name, ".pb.go") || strings.HasSuffix(name, ".pb.gw.go")
+	if !(strings.HasSuffix(name, ".pb.go") || strings.HasSuffix(name, ".pb.gw.go")) {
+		return false
+	}
+	dir, base := filepath.Split(name)
+	return generatedFiles[base] && strings.HasSuffix(filepath.Clean(dir), filepath.Join("x", "cctp", "types"))
 }
 
 // Load loads ./x/... of the tree at root. Failures are returned as errors; the
